@@ -230,7 +230,7 @@ class AdvHarness(Harness):
         self.returns = {}  # path-json -> recipe
         self.raw = {}
 
-    def serve(self, parent, obj, field, args, path):
+    def serve(self, rs, parent, obj, field, args, path):
         key = json.dumps(list(path))
         r = self.returns.get(key)
         if r is None:
